@@ -1,48 +1,279 @@
-import MqttVerif.Conn.Lemmas.Basic
+import MqttVerif.Conn.Lemmas.AliasStep
 /-!
-# C13 — topic aliases resolve to the intended topic (first instalment)
+# C13 — Topic aliases always resolve to the intended topic at the receiver
+
+Statement (properties.jsonl): every PUBLISH requested for sending is resolvable by a
+spec-conformant receiver to the topic the application asked for; an empty topic is only sent
+with an alias (1..=peer's Topic Alias Maximum) that an earlier PUBLISH actually sent on this
+connection bound to that topic (manual alias, automatic mapping/replacement, LRU eviction); on
+receipt an aliased PUBLISH is delivered with the bound topic or rejected as Topic Alias invalid;
+bindings do not survive the connection; stored/retransmitted packets carry the full topic and no
+alias.
+
+Ghost: `Mon.PeerTable`, the table of a spec-conformant receiver, updated ONLY from the PUBLISH
+packets actually emitted (`Mon.peerStep` / `Mon.peerStepEvs` — the same monitor the driver runs on
+the implementation's traces).  Invariant `AliasInv s peer` (`Conn/Lemmas/Alias.lean`):
+`TasOk` (internal consistency of `TopicAliasSend`), `StoreInv` (the store is alias-free) and
+`Agree` (every sender binding is a receiver binding).  All theorems are for **every** state,
+packet, parser behaviour and operation sequence; `s.ver = 5` is the "v5.0 connection" of the
+property text (the version, once determined, never changes: `step_ver`).
 -/
 set_option linter.unusedSimpArgs false
 set_option linter.unusedVariables false
 namespace MqttVerif.Conn
 open MqttVerif
 
-/-- the ghost receiver accepts a PUBLISH with a non-empty topic and no alias, learns a binding
-    from topic + alias, and resolves an empty topic only through a binding it has learnt -/
-theorem C13_receiver_rules (peerMax : Nat) (t : Mon.PeerTable) (p : Pkt) :
-    (p.alias = none → p.topic ≠ [] → Mon.peerStep peerMax t p = some t) ∧
-    (p.alias = none → p.topic = [] → Mon.peerStep peerMax t p = none) ∧
-    (∀ a, p.alias = some a → p.topic = [] → Mon.peerLookup a t = none → Mon.peerStep peerMax t p = none) ∧
-    (∀ a, p.alias = some a → (a = 0 ∨ a > peerMax) → Mon.peerStep peerMax t p = none) := by
-  refine ⟨?_, ?_, ?_, ?_⟩
-  · intro h1 h2; simp [Mon.peerStep, h1, h2]
-  · intro h1 h2; simp [Mon.peerStep, h1, h2]
-  · intro a h1 h2 h3; simp only [Mon.peerStep, h1, h2]; split <;> simp_all
-  · intro a h1 h2; simp [Mon.peerStep, h1, h2]
+/-! ## 1. the invariant is preserved by every call, together with the ghost update -/
 
-/-- fix (finding #11): a PUBLISH refused for Receive Maximum leaves the send alias table as it
-    was — the refusal happens before the alias stage -/
-theorem C13_rm_refusal_keeps_alias_table (c : C) (p : Pkt) (rel : Option Nat) (v : Bool) (m : Nat)
-    (hq : p.qos > 0) (hm : c.s.sendMax = some m) (hfull : c.s.sendCount ≥ m) :
-    (psV5PublishAlias c p rel v).s.tas = c.s.tas := by
-  have : psV5PublishAlias c p rel v = pubRefuseCleanup (c.err eRMExceeded) p.pid := by
-    simp [psV5PublishAlias, hq, hm, hfull]
-  rw [this]
-  unfold pubRefuseCleanup releaseId
-  (repeat' split) <;> simp [C.setPanic] <;> (split <;> simp)
+/-- **AliasInv is inductive**: for every operation (any packet, any peer bytes, any parser) on a
+    v5.0 connection the receiver can process everything the call emitted
+    (`peerStepEvs … = some peer'`), and the invariant holds again for the updated ghost table.
+    `peerMaxOf s` is the Topic Alias Maximum of the table in force (calls that replace the table
+    emit only alias-free PUBLISH packets, for which the bound is irrelevant). -/
+theorem C13_alias_inv_step (cfg : Cfg) (s : St) (op : Op) (peer : Mon.PeerTable) (hv : s.ver = 5)
+    (hinv : AliasInv s peer) (hl : RestoreLegal op) :
+    ∃ peer', Mon.peerStepEvs (peerMaxOf s) peer (step cfg s op).ev = some peer' ∧
+      AliasInv (step cfg s op).s peer' := by
+  rw [peerStepEvs_eq]; exact step_alias cfg s op peer hv hinv hl
 
-/-- an out-of-range manual alias is refused and the table is untouched -/
-theorem C13_alias_out_of_range_refused (s : St) (a : Nat) (t : TAS) (h : s.tas = some t)
-    (hr : a = 0 ∨ a > t.max) : validateTopicAliasRange s a = false := by
-  simp [validateTopicAliasRange, h]; omega
+/-- ghost receiver along a history: fed with the events of each call; forgets everything when
+    the transport is closed -/
+def ghostReset : Op → Mon.PeerTable → Mon.PeerTable
+  | .closed, _ => []
+  | _, peer' => peer'
 
-/-- the alias tables do not survive the connection -/
-theorem C13_tables_die_with_connection (c : C) :
-    (initConn c true).s.tas = none ∧ (initConn c true).s.tar = none ∧
-    (initConn c false).s.tas = none ∧ (initConn c false).s.tar = none := by
+def ghostRun (cfg : Cfg) : St → Mon.PeerTable → List Op → Option Mon.PeerTable
+  | _, peer, [] => some peer
+  | s, peer, op :: ops =>
+    match Mon.peerStepEvs (peerMaxOf s) peer (step cfg s op).ev with
+    | none => none
+    | some peer' => ghostRun cfg (step cfg s op).s (ghostReset op peer') ops
+
+theorem AliasInv.init (cfg : Cfg) (ver : Nat) : AliasInv (St.init cfg ver) [] :=
+  ⟨by intro t ht; simp [St.init] at ht, by intro e he; simp [St.init] at he,
+   by intro a tp h; simp [slookup, St.init] at h⟩
+
+/-! ## tables die with the connection -/
+
+/-- `notify_closed` drops both tables; the restarted (empty) ghost satisfies the invariant.
+    A CONNECT that is sent or received re-initialises both tables (`initConn`); they are created
+    afresh from the Topic Alias Maximum of CONNECT / CONNACK (`TAS.new`, empty). -/
+theorem C13_tables_die_with_connection (cfg : Cfg) (s : St) (peer : Mon.PeerTable) (hinv : AliasInv s peer) :
+    (step cfg s .closed).s.tas = none ∧ (step cfg s .closed).s.tar = none ∧
+      AliasInv (step cfg s .closed).s [] := by
+  have h1 : (step cfg s .closed).s.tas = none := notifyClosed_tas_none _
+  refine ⟨h1, notifyClosed_tar_none _, ?_⟩
+  have hq := quiet_notifyClosed { cfg := cfg, s := s }
+  refine ⟨hq.tasOk hinv.tasOk, hq.store hinv.store, ?_⟩
+  intro a tp h; simp [slookup, h1] at h
+
+theorem initConn_tables (c : C) (b : Bool) : (initConn c b).s.tas = none ∧ (initConn c b).s.tar = none := by
   simp [initConn]
 
-example : Mon.peerStep 2 [] { ver := 5, kind := .publish, topic := [], alias := some 1 } = none := by decide
-example : Mon.peerStep 2 [] { ver := 5, kind := .publish, topic := [97], alias := some 1 } = some [(1, [97])] := by decide
+/-- over whole histories: from a fresh v5.0 connection object, along every legal operation
+    sequence, the ghost receiver never gets stuck and the invariant holds at the end -/
+theorem C13_alias_inv_run (cfg : Cfg) (ops : List Op) (s : St) (peer : Mon.PeerTable) (hv : s.ver = 5)
+    (hinv : AliasInv s peer) (hl : ∀ op ∈ ops, RestoreLegal op) :
+    ∃ peer', ghostRun cfg s peer ops = some peer' ∧ AliasInv (run cfg s ops) peer' := by
+  induction ops generalizing s peer with
+  | nil => exact ⟨peer, rfl, hinv⟩
+  | cons op ops ih =>
+    obtain ⟨peer', h1, h2⟩ := C13_alias_inv_step cfg s op peer hv hinv (hl op (by simp))
+    have hv' : (step cfg s op).s.ver = 5 := by rw [step_ver cfg s op (by omega)]; exact hv
+    have hinv' : AliasInv (step cfg s op).s (ghostReset op peer') := by
+      cases op <;> first | exact h2 | exact (C13_tables_die_with_connection cfg s peer hinv).2.2
+    obtain ⟨peer'', h3, h4⟩ := ih (step cfg s op).s _ hv' hinv' (fun o ho => hl o (by simp [ho]))
+    exact ⟨peer'', by simp only [ghostRun, h1]; exact h3, by simpa [run] using h4⟩
+
+theorem C13_reachable (cfg : Cfg) (ops : List Op) (hl : ∀ op ∈ ops, RestoreLegal op) :
+    ∃ peer', ghostRun cfg (St.init cfg 5) [] ops = some peer' ∧
+      AliasInv (run cfg (St.init cfg 5) ops) peer' :=
+  C13_alias_inv_run cfg ops _ _ rfl (AliasInv.init cfg 5) hl
+
+/-! ## 2. everything emitted is resolvable -/
+
+/-- every emitted v5.0 PUBLISH either has a non-empty topic (and an alias within `1..max`, if
+    any) or an empty topic with an alias that an earlier emitted PUBLISH of this connection bound:
+    the receiver monitor never fails -/
+theorem C13_emitted_resolvable (cfg : Cfg) (s : St) (op : Op) (peer : Mon.PeerTable) (hv : s.ver = 5)
+    (hinv : AliasInv s peer) (hl : RestoreLegal op) :
+    Mon.peerStepEvs (peerMaxOf s) peer (step cfg s op).ev ≠ none := by
+  obtain ⟨peer', h, _⟩ := C13_alias_inv_step cfg s op peer hv hinv hl
+  rw [h]; simp
+
+/-- *intended topic*: when the application asked for the non-empty topic `T` without an alias and
+    automatic mapping / replacement rewrote the packet to an empty topic with alias `a`, the
+    receiver has `a ↦ T`; otherwise the packet keeps the topic `T` -/
+theorem C13_intended_topic {pm : Nat} {c : C} {p : Pkt} {peer : Mon.PeerTable} (hinv : AliasInv c.s peer)
+    (hpm : pm = peerMaxOf c.s) (ht : p.topic ≠ []) (ha : p.alias = none) :
+    ((autoAlias c p).2.topic = p.topic) ∨
+    ((autoAlias c p).2.topic = [] ∧
+      ∃ a, (autoAlias c p).2.alias = some a ∧ Mon.peerLookup a peer = some p.topic) := by
+  have hp : PubInv pm c.s peer := ⟨hinv.tasOk, hinv.store, hinv.agree, hpm ▸ peerMaxOf_spec c.s⟩
+  have h4 := (autoAlias_spec hp ht ha).2.2.2
+  by_cases he : (autoAlias c p).2.topic = []
+  · exact Or.inr ⟨he, h4 he⟩
+  · left
+    revert he
+    unfold autoAlias; dsimp only
+    (repeat' split) <;> simp
+
+/-- LRU eviction / automatic mapping changes the sender's table only in a call that emits the
+    new topic with that alias: `autoAlias` touches the table only while connected, only through
+    `insert_or_update topic a`, and hands exactly `{p with alias := a}` (full topic) to the tail,
+    which emits it in the same call -/
+theorem C13_lru_rebinds_by_sending (c : C) (p : Pkt) (rel : Option Nat)
+    (h : (autoAlias c p).1.s.tas ≠ c.s.tas) :
+    c.s.status = .connected ∧
+    ∃ a, (autoAlias c p).2 = { p with alias := some a } ∧
+      (autoAlias c p).1 = tasInsert c p.topic a "topic_alias_send.rs:insert_or_update:assert" ∧
+      (p.ver = 5 → p.kind = .publish →
+        pubs (psV5PublishTail (autoAlias c p).1 (autoAlias c p).2 rel).ev =
+          pubs c.ev ++ [{ p with alias := some a }]) := by
+  revert h
+  unfold autoAlias; dsimp only
+  (repeat' split) <;> simp
+  rename_i hc _ _ t _ _ _ _
+  intro _
+  refine ⟨hc, ?_⟩
+  intro h5 hk
+  rw [tail_pubs]
+  have e := (tasInsert_spec c p.topic t.lruAlias "topic_alias_send.rs:insert_or_update:assert").1
+  simp [hc, pubsOf_send, h5, hk, e]
+
+/-- the same for an alias chosen by the application: it is registered only while connected, i.e.
+    only by a packet that is emitted in the same call (fix of finding #11b) -/
+theorem C13_manual_alias_registered_by_sending (c : C) (p : Pkt) (rel : Option Nat) (a : Nat)
+    (hb : sendBlocked c.s p = false) (ht : p.topic ≠ []) (ha : p.alias = some a)
+    (h : (psV5PublishAlias c p rel false).s.tas ≠ c.s.tas) (h5 : p.ver = 5) (hk : p.kind = .publish) :
+    c.s.status = .connected ∧ pubs (psV5PublishAlias c p rel false).ev = pubs c.ev ++ [p] := by
+  rw [psV5PublishAlias_eq] at h ⊢
+  have ht' : p.topic.isEmpty = false := by simpa using ht
+  simp only [hb, ht', ha, Bool.false_eq_true, if_false] at h ⊢
+  split at h
+  · by_cases hc : c.s.status = .connected
+    · refine ⟨hc, ?_⟩
+      rename_i hr
+      have e := (tasInsert_spec c p.topic a "topic_alias_send.rs:insert_or_update:assert").1
+      simp only [hr, if_true, hc]
+      rw [tail_pubs]
+      simp [hc, pubsOf_send, h5, hk, e]
+    · simp [hc] at h
+  · simp at h
+
+/-! ## 3. the store is alias-free; retransmissions carry the full topic -/
+
+/-- every packet `process_send_v5_0_publish` places in the store has no Topic Alias and a
+    non-empty topic: `StoreInv` is preserved by every call -/
+theorem C13_stored_has_no_alias (cfg : Cfg) (s : St) (op : Op) (peer : Mon.PeerTable) (hv : s.ver = 5)
+    (hinv : AliasInv s peer) (hl : RestoreLegal op) :
+    ∀ e ∈ (step cfg s op).s.store, e.2.ver = 5 → e.2.kind = .publish → e.2.alias = none ∧ e.2.topic ≠ [] := by
+  obtain ⟨peer', _, h⟩ := C13_alias_inv_step cfg s op peer hv hinv hl
+  exact fun e he => h.store e he
+
+/-- hence every v5.0 PUBLISH resent by `send_stored` carries the full topic and no alias -/
+theorem C13_retransmit_no_alias (c : C) (hs : StoreInv c.s) :
+    ∃ l, pubs (sendStored c).ev = pubs c.ev ++ l ∧ ∀ q ∈ l, q.alias = none ∧ q.topic ≠ [] := by
+  obtain ⟨l, h1, h2⟩ := (quiet_sendStored c).evs
+  exact ⟨l, h1, h2 hs⟩
+
+/-! ## 4. receive side -/
+
+/-- **receive-side specification.**  For a received v5.0 PUBLISH `p`:
+    * empty topic + alias `a`: delivered with `topic = lookup a tar.m`, `extracted = true` iff
+      `1 ≤ a ≤ max`, `a` is bound and the bound topic has no wildcard; otherwise (no alias, `a = 0`,
+      `a > max`, no table, unbound, wildcard) Topic Alias invalid (0x94) and nothing delivered;
+    * non-empty topic + alias: the table gets exactly that binding (`TAR.insertOrUpdate`), range
+      errors as above;
+    * otherwise the table is untouched. -/
+theorem C13_recv_alias_spec (c : C) (p : Pkt) :
+    (p.topic = [] → p.alias = none → prV5PublishAlias c p = (handleV5Error c eAliasInvalid, none)) ∧
+    (∀ a, p.alias = some a → RecvAliasBad c.s a →
+      prV5PublishAlias c p = (handleV5Error c eAliasInvalid, none)) ∧
+    (∀ a t, p.topic = [] → p.alias = some a → c.s.tar = some t → lookup a t.m = none →
+      prV5PublishAlias c p = (handleV5Error c eAliasInvalid, none)) ∧
+    (∀ a t topic, p.topic = [] → p.alias = some a → c.s.tar = some t → lookup a t.m = some topic →
+      hasWildcard topic = true → prV5PublishAlias c p = (handleV5Error c eAliasInvalid, none)) ∧
+    (∀ a t topic, p.topic = [] → p.alias = some a → c.s.tar = some t → a ≠ 0 → a ≤ t.max →
+      lookup a t.m = some topic → hasWildcard topic = false →
+      prV5PublishAlias c p = (c, some { p with topic := topic, extracted := true })) ∧
+    (∀ a t, p.topic ≠ [] → p.alias = some a → c.s.tar = some t → a ≠ 0 → a ≤ t.max →
+      prV5PublishAlias c p = ({ c with s := { c.s with tar := some (t.insertOrUpdate p.topic a) } }, some p)) ∧
+    (p.topic ≠ [] → p.alias = none → prV5PublishAlias c p = (c, some p)) :=
+  ⟨prvAlias_empty_noalias c p, prvAlias_bad c p, prvAlias_empty_unbound c p, prvAlias_empty_wildcard c p,
+   prvAlias_empty_bound c p, prvAlias_register c p, prvAlias_plain c p⟩
+
+/-- the error path leaves the receive table alone and, while connected, answers with
+    DISCONNECT 0x94 + close -/
+theorem C13_recv_alias_invalid_effect (c : C) (h : c.s.status = .connected) :
+    (handleV5Error c eAliasInvalid).s.tar = c.s.tar ∧
+    ∃ tc, (∀ x ∈ tc, IsTimerCancel x) ∧
+      (handleV5Error c eAliasInvalid).ev = c.ev ++ tc ++
+        (if sizeOk c (mkV5Disconnect 0x94) then [.send (mkV5Disconnect 0x94) none, .close] else [.close]) ++
+        [.error eAliasInvalid] := by
+  refine ⟨by simp, ?_⟩
+  have := (handleV5Error_connected c eAliasInvalid h).2
+  simpa [errToDisconnectRc, eAliasInvalid] using this
+
+/-- what the handler delivers and what it leaves in the table is decided by the alias stage;
+    `TAR.insertOrUpdate` adds exactly the one binding -/
+theorem C13_recv_delivery (c : C) (p : Pkt) :
+    (prV5Publish c (.ok p)).s.tar = (prV5PublishAlias c p).1.s.tar ∧
+    (recvs (prV5Publish c (.ok p)).ev = recvs c.ev ∨
+      ∃ q, (prV5PublishAlias c p).2 = some q ∧ recvs (prV5Publish c (.ok p)).ev = recvs c.ev ++ [q]) ∧
+    (∀ (t : TAR) topic a k, lookup k (t.insertOrUpdate topic a).m = if k = a then some topic else lookup k t.m) :=
+  ⟨prV5Publish_tar c p, prV5Publish_recvs c p, TAR.insertOrUpdate_lookup⟩
+
+/-! ## non-vacuity: concrete states and inputs satisfying the hypotheses -/
+namespace C13Ex
+
+def cfg : Cfg := { role := .client, pw := 2 }
+def connect : Pkt := { ver := 5, kind := .connect, size := 15, props := [(pSEI, 60), (pTAM, 3)] }
+def connack : Pkt := { ver := 5, kind := .connack, size := 8, rc := some 0, props := [(pTAM, 2), (pRM, 5)] }
+def pubBind : Pkt := { ver := 5, kind := .publish, topic := [97], alias := some 1 }
+def pubUse : Pkt := { ver := 5, kind := .publish, topic := [], alias := some 1 }
+def pubStored : Pkt := { ver := 5, kind := .publish, topic := [], alias := some 1, qos := 1, pid := some 1 }
+def pubAuto (t : Nat) : Pkt := { ver := 5, kind := .publish, topic := [t] }
+/-- CONNECT, CONNACK(TAM=2), PUBLISH binding alias 1 to "a", a stored QoS 1 PUBLISH using it -/
+def ops : List Op :=
+  [.send connect, .recv [0x20, 0] (fun _ _ _ => .ok connack), .send pubBind, .acquire, .send pubStored,
+   .setFlag .autoMap true]
+def s1 : St := run cfg (St.init cfg 5) ops
+def peer1 : Mon.PeerTable := [(1, [97])]
+
+example : slookup s1 1 = some [97] ∧ s1.store.length = 1 ∧ s1.ver = 5 := by decide
+theorem ghost1 : ghostRun cfg (St.init cfg 5) [] ops = some peer1 := by decide
+theorem inv1 : AliasInv s1 peer1 := by
+  obtain ⟨peer', h1, h2⟩ := C13_reachable cfg ops (by intro op hop; simp [ops] at hop; rcases hop with rfl | rfl | rfl | rfl | rfl | rfl <;> trivial)
+  rw [ghost1] at h1; cases h1; exact h2
+
+/-- `C13_alias_inv_step`, `C13_emitted_resolvable`, `C13_stored_has_no_alias`,
+    `C13_tables_die_with_connection`: an established connection with a binding, a non-empty
+    store, and an empty-topic PUBLISH that uses the binding -/
+example : s1.ver = 5 ∧ AliasInv s1 peer1 ∧ RestoreLegal (.send pubUse) ∧
+    pubs (step cfg s1 (.send pubUse)).ev = [pubUse] := ⟨by decide, inv1, trivial, by decide⟩
+example : RestoreLegal (.restorePackets [{ pubStored with topic := [97], alias := none }]) := by
+  simp only [RestoreLegal]; decide
+/-- `C13_intended_topic`: auto-map rewrites topic "a" to alias 1 -/
+example : (pubAuto 97).topic ≠ [] ∧ (pubAuto 97).alias = none ∧
+    (autoAlias { cfg := cfg, s := s1 } (pubAuto 97)).2.topic = [] := by decide
+/-- `C13_lru_rebinds_by_sending`: a new topic "b" gets the vacant alias 2 -/
+example : (autoAlias { cfg := cfg, s := s1 } (pubAuto 98)).1.s.tas ≠ s1.tas := by decide
+/-- `C13_manual_alias_registered_by_sending` -/
+example : sendBlocked s1 { pubBind with alias := some 2 } = false ∧
+    (psV5PublishAlias { cfg := cfg, s := s1 } { pubBind with alias := some 2 } none false).s.tas ≠ s1.tas := by
+  decide
+/-- `C13_retransmit_no_alias`: the stored packet has the full topic "a" and no alias -/
+example : StoreInv s1 ∧ s1.store.map (fun e => (e.2.topic, e.2.alias)) = [([97], none)] := by
+  refine ⟨inv1.store, by decide⟩
+/-- `C13_recv_alias_spec` / `C13_recv_alias_invalid_effect`: a receive table with one binding -/
+def cR : C := { cfg := cfg, s := { s1 with tar := some { max := 3, m := [(2, [120])] } } }
+example : pubUse.topic = [] ∧ cR.s.tar = some { max := 3, m := [(2, [120])] } ∧
+    lookup 2 ([(2, [120])] : List (Nat × List Nat)) = some [120] ∧ hasWildcard [120] = false ∧
+    cR.s.status = .connected ∧ RecvAliasBad cR.s 4 := by
+  refine ⟨rfl, rfl, rfl, rfl, by decide, ?_⟩
+  intro t ht; cases ht; decide
+
+end C13Ex
 
 end MqttVerif.Conn
